@@ -6,6 +6,21 @@ func dumpModel(w *World, what string) {
 	for _, k := range w.Order {
 		p := w.Pkgs[k]
 		switch what {
+		case "sset":
+			sm, err := p.buildSetModelSemantic()
+			if err != nil {
+				fmt.Println(k, "semantic Set model not applicable:", err, posSuffix(p, err))
+				continue
+			}
+			for _, m := range sm.Metrics {
+				fmt.Printf("%s %-4s L=%v width=%d enc=%v W=%d\n", k, m.Label, m.List, m.Width, m.Enc, len(m.W))
+			}
+			for _, o := range sm.Obls {
+				if !o.OK {
+					fmt.Println("  FAIL", o.Rule, o.Instance, o.Detail)
+				}
+			}
+			fmt.Println(k, "runs:", sm.SemanticRuns)
 		case "set":
 			sm := p.SetModel()
 			for _, m := range sm.Metrics {
